@@ -1041,4 +1041,105 @@ def m_into_iter_identity(I, st, args, c, dest, target, span):
     return args[0]
 
 
+# closure-taking Result combinators and a few more Option/bool helpers ---------------------------------
+def as_res(I, st, v):
+    v = I.force(st, v)
+    if isinstance(v, VEnum) and v.adt == RESULT:
+        return v
+    raise Undecided("expected Result, got %r" % (v,))
+
+
+def _res_cb(name, on_variant, other, wrap):
+    """`res.<name>(f)`: f is called on the payload of `on_variant`; `other(I, st, r, args)` gives the result for the other variant."""
+    @native(name)
+    def nat(I, st, data, value):
+        if value is START:
+            r, f = data[1], data[2]
+            return ("callv", f, [r.get("0")], ("ret",) + tuple(data[1:]))
+        return ("ret", wrap(I, st, data, value))
+
+    def mdl(I, st, args, c, dest, target, span):
+        r = as_res(I, st, args[0])
+        if r.variant != on_variant:
+            return other(I, st, r, args)
+        return I.start_native(st, name, ("start", r, args[-1]) + tuple(args[1:-1]), dest, target, span)
+    return mdl
+
+
+MODELS["core::result::Result::<T, E>::map"] = _res_cb("res_map", "Ok", lambda I, st, r, a: r, lambda I, st, d, v: ok(v))
+MODELS["core::result::Result::<T, E>::map_err"] = _res_cb("res_map_err", "Err", lambda I, st, r, a: r, lambda I, st, d, v: err(v))
+MODELS["core::result::Result::<T, E>::and_then"] = _res_cb("res_and_then", "Ok", lambda I, st, r, a: r, lambda I, st, d, v: v)
+MODELS["core::result::Result::<T, E>::or_else"] = _res_cb("res_or_else", "Err", lambda I, st, r, a: r, lambda I, st, d, v: v)
+MODELS["core::result::Result::<T, E>::unwrap_or_else"] = _res_cb("res_unwrap_or_else", "Err", lambda I, st, r, a: r.get("0"), lambda I, st, d, v: v)
+MODELS["core::result::Result::<T, E>::is_ok_and"] = _res_cb("res_is_ok_and", "Ok", lambda I, st, r, a: VBool(False), lambda I, st, d, v: v)
+MODELS["core::result::Result::<T, E>::is_err_and"] = _res_cb("res_is_err_and", "Err", lambda I, st, r, a: VBool(False), lambda I, st, d, v: v)
+MODELS["core::result::Result::<T, E>::map_or"] = _res_cb("res_map_or", "Ok", lambda I, st, r, a: a[1], lambda I, st, d, v: v)
+
+
+@model("core::result::Result::<T, E>::unwrap_or")
+def m_res_unwrap_or(I, st, args, c, dest, target, span):
+    r = as_res(I, st, args[0])
+    return r.get("0") if r.variant == "Ok" else args[1]
+
+
+@model("core::result::Result::<T, E>::err")
+def m_res_err(I, st, args, c, dest, target, span):
+    r = as_res(I, st, args[0])
+    return some(r.get("0")) if r.variant == "Err" else none()
+
+
+@model("core::result::Result::<T, E>::as_ref", "core::result::Result::<T, E>::as_mut")
+def m_res_as_ref(I, st, args, c, dest, target, span):
+    ref = I.force(st, args[0])
+    if not isinstance(ref, VRef):
+        raise Undecided("Result::as_ref on a non-reference")
+    r = as_res(I, st, I.load(st, ref.root, ref.path))
+    return VEnum(RESULT, r.variant, (("0", VRef(ref.root, ref.path + (("variant", r.variant), ("field", "0")), ref.mut)),))
+
+
+@native("opt_ok_or_else")
+def n_ok_or_else(I, st, data, value):
+    if value is START:
+        return ("callv", data[1], [], ("ret",))
+    return ("ret", err(value))
+
+
+@model("core::option::Option::<T>::ok_or_else")
+def m_ok_or_else(I, st, args, c, dest, target, span):
+    o = as_opt(I, st, args[0])
+    if o.variant == "Some":
+        return ok(o.get("0"))
+    return I.start_native(st, "opt_ok_or_else", ("start", args[1]), dest, target, span)
+
+
+@model("core::bool::<impl bool>::then_some")
+def m_then_some(I, st, args, c, dest, target, span):
+    b = I.force(st, args[0])
+    if not isinstance(b, VBool):
+        raise Undecided("then_some on %r" % (b,))
+    return some(args[1]) if b.b else none()
+
+
+@native("bool_then")
+def n_bool_then(I, st, data, value):
+    if value is START:
+        return ("callv", data[1], [], ("ret",))
+    return ("ret", some(value))
+
+
+@model("core::bool::<impl bool>::then")
+def m_bool_then(I, st, args, c, dest, target, span):
+    b = I.force(st, args[0])
+    if not isinstance(b, VBool):
+        raise Undecided("then on %r" % (b,))
+    if not b.b:
+        return none()
+    return I.start_native(st, "bool_then", ("start", args[1]), dest, target, span)
+
+
+@model("core::option::Option::<T>::is_some_and_placeholder")
+def _unused(I, st, args, c, dest, target, span):
+    raise Undecided("placeholder")
+
+
 from . import ppmodels as _ppmodels      # noqa: E402,F401  (sequence / string / sink models registered in front of the ones above)
